@@ -2,6 +2,7 @@ CONSTANTS
   Tier = "t"
   Unguarded = {}
   Unwrapped = {}
+  DepthRestore = "parent"
 INIT Init
 NEXT Next
 INVARIANTS
